@@ -49,6 +49,8 @@ func init() {
 			"\t\t\tt.cancelled = false\n\t\t\t_ = t.ScheduleOnce(repeat, ccb)", "C04-R4"},
 		mutant{"repeating wrapper disarms after a refused re-arm", "timer.go",
 			"\t\t\t} else {\n\t\t\t\t// TODO this error should not be ignored\n\t\t\t\t_ = t.ScheduleOnce(repeat, ccb)\n\t\t\t}", "\t\t\t} else if err := t.ScheduleOnce(repeat, ccb); err != nil {\n\t\t\t\t_ = t.it.Unset()\n\t\t\t}", "C04-R3"},
+		mutant{"ScheduleRepeating clears the flag before validating", "timer.go",
+			"func (t *Timer) ScheduleRepeating(repeat time.Duration, cb func()) error {\n", "func (t *Timer) ScheduleRepeating(repeat time.Duration, cb func()) error {\n\tt.cancelled = false\n", "C04-R4"},
 		mutant{"Cancel flags only scheduled timers", "timer.go",
 			"\terr := t.it.Unset()\n\tif err == nil {\n\t\tt.cancelled = true", "\terr := t.it.Unset()\n\tif err == nil && t.state == stateScheduled {\n\t\tt.cancelled = true", "C04-R4"},
 		mutant{"interest registered although arming failed", "internal/timer_linux.go",
@@ -536,6 +538,32 @@ func runC04(c *Ctx) {
 			}
 		}
 		c.check(cleared, schedOnce, "cancelled=false", schedOnce.Pos(), "ScheduleOnce clears the flag", "ScheduleOnce does not clear the cancelled flag: a timer cancelled earlier and scheduled again stops repeating after one shot")
+		// who may clear the flag: ScheduleOnce (where a schedule begins, checked below) and the repeating wrapper when it
+		// consumes a cancellation (under `if cancelled`). A clear anywhere else - e.g. at the top of ScheduleRepeating, before
+		// its argument is validated - loses a Cancel issued from inside the repeating callback.
+		for _, fn := range timerFuncs {
+			for _, a := range storesTo(fn, cancelledF) {
+				if !isConstBool(a.Val, false) {
+					continue
+				}
+				top := fn
+				for top.Parent() != nil {
+					top = top.Parent()
+				}
+				okSite := top == schedOnce || allCallersSatisfy(p, top, 2, func(c2 *ssa.Function) bool { return c2 == schedOnce })
+				if fn == rep {
+					for _, l := range guardsOf(a.Instr.Block()) {
+						if loadOfField(l.Cond, cancelledF) && l.Pos {
+							okSite = true
+						}
+					}
+				}
+				if isFreshAllocStore(a.Instr.(*ssa.Store)) {
+					okSite = true
+				}
+				c.check(okSite, fn, "clears cancelled", a.Instr.Pos(), "the flag is cleared by ScheduleOnce or by the wrapper consuming it", "the cancelled flag is cleared outside ScheduleOnce and the repeating wrapper's own acknowledgement: a call that is then refused (for example ScheduleRepeating with a non-positive interval, from inside the callback that just cancelled) makes the cancelled repetition re-arm itself")
+			}
+		}
 		// ... but only where a schedule begins: the immediate-callback path (delay <= 0) arms nothing, and clearing the flag
 		// there loses a Cancel issued from inside a repeating timer's own callback (the wrapper would re-arm)
 		// and the immediate callback runs only on a ready timer (a closed one is not revived, a scheduled one not disturbed)
